@@ -89,7 +89,9 @@ def run(res, tier, seed, model_ok, search):
             impl = "EXC:" + type(e).__name__
         toks = [C16.view_tok(byid[sp["id"]], sp) for sp in specs]
         otok = ",".join(toks) if toks else "."
-        ntok = C16.view_tok(order, osp).rsplit(":", 1)[0] + ":" + ladder
+        # (the exposure view asks `price_ladder_definition == "LINE_RANGE"`: an order whose definition was overwritten with an unknown
+        # one is valued as a classic order there, whatever it was built as)
+        ntok = C16.view_tok(order, dict(osp, line=osp["line"] and ladder != "U")).rsplit(":", 1)[0] + ":" + ladder
         line = "sexp %s %s %s %s %d %d %s %s %s" % (tok(strategy.max_order_exposure), tok(strategy.max_selection_exposure),
                                                    tok(strategy.max_market_exposure), otok, active, winners, ntok, kind, tokb(vok))
         lines.append(line); impls.append(impl); payloads.append({"case": case, "seed": seed, "domain": "decision", "line": line, "message": last_msg})
